@@ -2941,7 +2941,9 @@ class PoissonGAM(GAM):
         y : y normalized by exposure
         weights : array-like shape (n_samples,)
         """
-        y = np.ravel(y)
+        y = check_array(
+            np.ravel(y), force_2d=False, ndim=1, name='y data', verbose=self.verbose
+        )
 
         if exposure is not None:
             exposure = np.array(exposure).astype('f').ravel()
